@@ -85,9 +85,8 @@ Print Assumptions C15_ignored_absent.
 (* The same file set (clean relative names, in the order of the directory walk), once read by
    LoadDir under an ignore predicate and once packed below a base directory and read by
    LoadArchive without the ignored files: the two results are equal — the same chart or the
-   same error — provided the archive fits the limits, at least one file is kept, and no empty
-   file is named ...values.schema.json (the archive reader hands LoadFiles a nil slice for an
-   empty file, the directory reader an empty one; only Schema can tell them apart). *)
+   same error, at every nesting depth of subcharts — provided the archive fits the limits and
+   at least one file is kept. *)
 Theorem C15_dir_archive_agree :
   forall (md_merge : meta -> string -> option meta) (lock_dec : string -> option (option lockv))
          (parse_values : string -> option val) (untar : string -> tstream)
@@ -98,8 +97,6 @@ Theorem C15_dir_archive_agree :
   let kept := filter (fun f => negb (eff_ignored ignored (f_name f))) walk in
   let es := map (fun f => tar_entry (base ++ "/" ++ f_name f) (f_data f)) kept in
   fits maxt maxf es -> kept <> [] ->
-  (forall f, In f (map (fun f => mkFile (f_name f) (trim_bom (f_data f))) kept) -> f_data f = "" ->
-             forall p, f_name f <> p ++ "values.schema.json") ->
   load_archive md_merge lock_dec parse_values untar sanitize is_semver rest_valid maxt maxf fuel (mkTS false es false) =
   load_dir_walk md_merge lock_dec parse_values untar sanitize is_semver rest_valid maxt maxf ignored fuel walk.
 Proof. exact dir_archive_agree. Qed.
@@ -108,7 +105,7 @@ Print Assumptions C15_dir_archive_agree.
 Example C15_dir_archive_agree_ex :
   wf_cname "k4" = true /\ Forall (fun f => wf_fname (f_name f) = true) walkK /\
   fits 1000 100 (map (fun f => tar_entry ("k4" ++ "/" ++ f_name f) (f_data f)) (kept ignK walkK)) /\
-  kept ignK walkK <> [] /\ schema_ok (trimmed (kept ignK walkK)) /\
+  kept ignK walkK <> [] /\
   exists c, load_dir_walk mergeK lock_decK parseK untarK sanK semverK restK 1000 100 ignK 1 walkK = inr c /\
             c_templates c = [mkFile "templates/a.yaml" "a: 1"] /\ c_files c = [mkFile ".helmignore" "README.md"].
 Proof. exact agree_example. Qed.
